@@ -7,8 +7,13 @@ Protocol (one line each):
 ```
 case <id> bs=<n> wait=<n|D> [ups=<units per second>] end=<N|k> strict=<0|1>     (wait=D: constructor default)
 e arrive <N|k> | e tick <d> | e take <N|k> | e emit <x,x,…> | e resume | e stop
+cf takes=<x@t;x@t;…> out=<x,x|x,…> at=<t,t,…>       (optional, before `end`; complete strict runs only)
 end pc=<idle|coll|flush|held|closing|done> out=<#batches> clock=<n> q=<#queued>
 ```
+`cf` is a plain differential check of the closed form `Eager.greedy` (proved equal to the model's
+batches for tie-free runs, `C19_closed_form`) against what the implementation delivered: the take
+events of the real run are grouped greedily and compared with the batches and clocks the consumer
+saw; skipped (`cf=tie`) when an entry was taken at exactly `t0 + wait` of an open batch.
 `timeout` (the timed get raising `queue.Empty`) is the only internal action; it is inferred. -/
 namespace Eager.Drv
 open Core.Val
@@ -81,6 +86,34 @@ structure St where
   k : Nat := 0
   dead : Bool := true      -- no case open / already rejected
   maxStates : Nat := 0
+  cf : String := "none"    -- closed-form comparison: none | checked | tie | BAD …
+
+def parseTakes (w : String) : Option (List (Item × Nat)) :=
+  if w == "" then some [] else
+  (w.splitOn ";").mapM fun e =>
+    match e.splitOn "@" with
+    | [x, t] => do let i ← parseItem x; let n ← t.toNat?; pure (i, n)
+    | _ => none
+
+def parseBatches (w : String) : Option (List (List Item)) :=
+  if w == "" then some [] else (w.splitOn "|").mapM parseBatch
+
+def showItem : Item → String
+  | none => "N" | some k => toString k
+
+def showBatches (l : List (List Item)) : String :=
+  "|".intercalate (l.map fun b => ",".intercalate (b.map showItem))
+
+/-- closed form vs. what the implementation delivered -/
+def closedForm (c : Cfg) (kv : List (String × String)) : String :=
+  match parseTakes (Drv.getS kv "takes"), parseBatches (Drv.getS kv "out") with
+  | some takes, some out =>
+    let at_ := Drv.getL kv "at"
+    let g := greedy c takes
+    if g.tie then "tie"
+    else if g.closed == out && g.closedAt c == at_ then "checked"
+    else s!"BAD closed form gives batches {showBatches g.closed} at {Drv.showNats (g.closedAt c)}, implementation delivered {showBatches out} at {Drv.showNats at_}"
+  | _, _ => "BAD unparsable cf line"
 
 def fuel : Nat := 2
 
@@ -111,6 +144,9 @@ partial def loop (h : IO.FS.Stream) (st : St) : IO Unit := do
         IO.println s!"REJECT {st.id} {st.k} event `{name} {rest}` not enabled (or wrong data) in any of {cl.length} compatible model states; e.g. {descr}"
         loop h { st with dead := true }
       else loop h { st with ss := ss', k := st.k + 1, maxStates := max st.maxStates ss'.length }
+  | "cf" :: rest =>
+    if st.dead then loop h st else
+    loop h { st with cf := closedForm st.cfg (Drv.kvs rest) }
   | "end" :: rest =>
     if st.dead then loop h st else
     let kv := Drv.kvs rest
@@ -121,8 +157,10 @@ partial def loop (h : IO.FS.Stream) (st : St) : IO Unit := do
         | some s => s!"pc={pcName s.pc} out={s.out.length} clock={s.clock} q={s.q.length}"
         | none => "-"
       IO.println s!"NOFINAL {st.id} {st.k} no compatible model state matches the summary {rest}; e.g. model state: {descr}"
+    else if st.cf.startsWith "BAD" then
+      IO.println s!"MISMATCH {st.id} {st.k} {st.cf}"
     else
-      IO.println s!"ok {st.id} events={st.k} maxstates={st.maxStates}"
+      IO.println s!"ok {st.id} events={st.k} maxstates={st.maxStates} cf={st.cf}"
     loop h { st with dead := true }
   | _ => loop h st
 
